@@ -375,6 +375,29 @@ func (c *Comparer) field(v reflect.Value, n *Node, fi int, f Field, path string)
 		if f.Kind != FParss && f.Kind != FCusts && len(want) > 1 {
 			want = want[len(want)-1:]
 		}
+		// a user-implemented production works on a fresh value at every attempt
+		fresh := func(pv reflect.Value) {
+			if cf := pv.FieldByName("Calls"); cf.IsValid() && cf.Int() != 1 {
+				c.add(fp, "value", "user-implemented production: Parse ran %d times on the value that ended up in the AST (it holds %q)", cf.Int(), pv.Field(0).String())
+			}
+			if sf := pv.FieldByName("Seen"); sf.IsValid() && sf.String() != pv.Field(0).String() {
+				c.add(fp, "value", "user-implemented production: the value in the AST has seen %q, its own token is %q (left over from an earlier attempt)", sf.String(), pv.Field(0).String())
+			}
+		}
+		switch f.Kind {
+		case FPars, FParsR:
+			if !fv.IsNil() {
+				fresh(fv.Elem())
+			}
+		case FParsV:
+			if len(want) > 0 {
+				fresh(fv)
+			}
+		case FParss:
+			for i := 0; i < fv.Len(); i++ {
+				fresh(fv.Index(i))
+			}
+		}
 		if strings.Join(got, "\x00") != strings.Join(want, "\x00") || len(got) != len(want) {
 			c.add(fp, "value", "user-implemented production(s) hold %q, want %q", got, want)
 		}
@@ -610,10 +633,17 @@ func (c *Comparer) Leaks(v reflect.Value, n *Node, uni int, path string) {
 				vals = append(vals, e.Vals...)
 			}
 			var got []string
+			// what an earlier, abandoned attempt of the production wrote into its value must not be in the AST
+			stale := func(pv reflect.Value) {
+				if sf := pv.FieldByName("Seen"); sf.IsValid() && sf.String() != pv.Field(0).String() && pv.Field(0).String() != "" {
+					c.add(fp, "leak", "user-implemented production: the value in the AST has seen %q, its own token is %q (left over from an abandoned attempt)", sf.String(), pv.Field(0).String())
+				}
+			}
 			switch f.Kind {
 			case FPars, FParsR:
 				if !fv.IsNil() {
 					got = []string{fv.Elem().Field(0).String()}
+					stale(fv.Elem())
 				}
 			case FParsV:
 				got = []string{fv.Field(0).String()}
